@@ -223,3 +223,38 @@ def slant_depth_is_chord_integral():
         prove("exit-point-on-surface", eq(e[0] * e[0] + e[1] * e[1] + e[2] * e[2], R * R))
 
 
+
+
+# ---------------------------------------------------------------------------
+# bounded stand-in with replayable inputs: the whole of slant_depth against an independent chord integral,
+# for direction vectors of any length (the proved harness replaces normalize() by its contract)
+# ---------------------------------------------------------------------------
+
+@harness(clause="bounded-slant-depth", bounded=40, label="B")
+def slant_depth_against_an_independent_chord_integral_sampled():
+    for cls in MODELS:
+        m = new(cls)
+        R = m.earth_radius
+        p = np.array([real("x", -5000, 5000), real("y", -5000, 5000), real("z", -3000, 0)])
+        th, ph = real("zenith", 0, pi), real("azimuth", -pi, pi)
+        u = np.array([np.sin(th) * np.cos(ph), np.sin(th) * np.sin(ph), np.cos(th)])
+        scale = 10 ** real("log10_direction_length", -2, 2)
+        step = 20
+        got = m.slant_depth(p, scale * u, step=step)
+        # independent: midpoint rule along the unit direction up to the exit point
+        c = np.array([p[0], p[1], p[2] + R])
+        b = float(np.dot(c, u))
+        disc = b * b - float(np.dot(c, c)) + R * R
+        dist = -b + np.sqrt(disc) if disc > 0 else 0.0
+        if dist <= 0:
+            prove("no-chord-no-depth:" + cls.rsplit(".", 1)[1], got == 0)
+            continue
+        n = 20000
+        ts = (np.arange(n) + 0.5) / n * dist
+        rs = np.sqrt(np.sum((c[None, :] + ts[:, None] * u[None, :]) ** 2, axis=1))
+        want = float(np.sum(m.density(rs)) * dist / n) * 100
+        # the trapezoid rule may lose up to one step at a density discontinuity / at the exit point
+        slack = step * float(np.max(m.density(rs))) * 100
+        prove("equals-the-chord-integral-of-the-density:" + cls.rsplit(".", 1)[1], abs(got - want) <= 1e-3 * want + 2 * slack)
+        got2 = m.slant_depth(p, u, step=step)
+        prove("independent-of-the-direction-length:" + cls.rsplit(".", 1)[1], abs(got - got2) <= 1e-5 * max(got2, 1.0) + slack)
